@@ -14,7 +14,8 @@ RULE = (
     "0..2 observed parameters given as (n,) or (n,1), batch size <= n, 1..3 epochs of get_batch calls; every table entry "
     "is an injective function of its row index so a batch row identifies its source row; (b) parameter loaders: keys "
     "with ranges, keys with user tables in both documented shapes (n,) and (n,1), keys in both (table wins), uniform "
-    "and grid; (c) multi-network loaders with 1..3 networks, some without observations. Oracle: every batch row's "
+    "and grid; (c) multi-network loaders with 1..3 networks, some without observations, the three dictionaries written in "
+    "independent key orders. Oracle: every batch row's "
     "(input, value, parameter...) tuple is one row of the original table; samples of a ranged key lie in its own range, "
     "samples of a table key are a permutation of its table at every call; multi loader returns one aligned batch per "
     "network and None for networks without observations. Non-trivial = n >= 3, batch < n, and (a) at least one "
